@@ -4,12 +4,14 @@
 set -e
 name=$1; vfile=$2; entry=${3:-run_sexp}
 here=$(cd "$(dirname "$0")" && pwd)
-gen=$here/gen/$name
+gen=$here/gen/$name.$$
 mkdir -p "$gen" "$here/bin"
+trap 'rm -rf "$gen"' EXIT
 cd "$gen"
-rm -f ./*.ml ./*.mli ./*.cm* ./*.o
 timeout 600 coqc -Q "$here/../coq" DV "$here/../coq/Extract/$vfile" >/dev/null
 rm -f "$here/../coq/Extract/${vfile%.v}.vo" "$here/../coq/Extract/${vfile%.v}.glob" "$here/../coq/Extract/.${vfile%.v}.aux" "$here/../coq/Extract/${vfile%.v}.vos" "$here/../coq/Extract/${vfile%.v}.vok"
 mv ${name}_model.ml model.ml; mv ${name}_model.mli model.mli
 sed "s/run_sexp (parse line)/$entry (parse line)/" "$here/main.ml" > main.ml
-ocamlfind ocamlopt -O3 -w -a model.mli model.ml main.ml -o "$here/bin/$name" 2>/dev/null || ocamlfind ocamlopt -w -a model.mli model.ml main.ml -o "$here/bin/$name"
+# link next to the target, then rename: a check that is executing the old binary keeps it
+ocamlfind ocamlopt -O3 -w -a model.mli model.ml main.ml -o "$here/bin/.$name.$$" 2>/dev/null || ocamlfind ocamlopt -w -a model.mli model.ml main.ml -o "$here/bin/.$name.$$"
+mv -f "$here/bin/.$name.$$" "$here/bin/$name"
